@@ -89,13 +89,23 @@ def main():
             rc, _ = sh(["go", "test", "-vet=off", "-count=1", "./..."], cwd=dst)
             suite = "suite-pass" if rc == 0 else "suite-FAILS"
             alarms = []
-            for pid in ALL:
+            relevant = ALL
+            if os.environ.get("BENIGN_RELEVANT_ONLY"):  # the checks of the touched family plus the cross-cutting ones
+                fam = {"qr/": ["C01", "C12", "C13"], "pdf417/": ["C04", "C12", "C13"], "aztec/": ["C03", "C12", "C13"], "datamatrix/": ["C02", "C12", "C13"],
+                       "code128/": ["C05", "C14"], "ean/": ["C06", "C14"], "code39/": ["C07", "C14"], "code93/": ["C07"], "codabar/": ["C08"], "twooffive/": ["C08"],
+                       "utils/bitlist": ["C18", "C01", "C03", "C05", "C06"], "utils/reedsolomon": ["C17", "C01", "C02", "C03"], "utils/base1dcode": ["C05", "C06", "C07", "C08", "C14"],
+                       "scaledbarcode": ["C09", "C14"]}
+                relevant = ["C09", "C10", "C11", "C15", "C16"]
+                for k, v in fam.items():
+                    if path.startswith(k):
+                        relevant = sorted(set(relevant + v))
+            for pid in relevant:
                 env = dict(ENV, VERIF_REPO_OVERRIDE=dst, VERIF_SEED=os.environ.get("VERIF_SEED", "0"))
                 rc, out = sh([os.path.join(CHECK_DIR, "check"), pid, "quick"], cwd=CHECK_DIR, env=env)
                 if rc != 0:
                     v = [l for l in out.splitlines() if "check=" in l or l.startswith(("VIOLATION", "INCONCLUSIVE"))]
                     alarms.append(f"{pid} rc={rc}: " + " | ".join(v)[:400])
-            print(f"{name:28s} {suite:11s} " + ("SILENT (no alarm from 18 checks)" if not alarms else "ALARMS:\n    " + "\n    ".join(alarms)), flush=True)
+            print(f"{name:28s} {suite:11s} " + ("SILENT (no alarm from %d checks)" % len(relevant) if not alarms else "ALARMS:\n    " + "\n    ".join(alarms)), flush=True)
             res[name] = {"why_benign": why, "suite": suite, "alarms": alarms}
         finally:
             shutil.rmtree(d, ignore_errors=True)
